@@ -223,7 +223,9 @@ def _layout(rng, n_t, n_a, chroms, unique_sizes):
     return bins
 
 
-def gen_case(rng: random.Random, family, var_kind, big):
+def gen_case(rng: random.Random, hard, var_kind, big):
+    """One seeded case.  hard: covariate ties on purpose, or classes mostly / wholly without coverage (the
+    rolling-median clause is then undecided for the class; every other clause is judged)."""
     nauto = 3 if rng.random() < 0.9 else 0
     if nauto == 3:
         chroms = sorted(rng.sample([1, 2, 3, 4, 5], rng.choice([1, 2, 3, 4, 5])))
@@ -240,7 +242,7 @@ def gen_case(rng: random.Random, family, var_kind, big):
     if rng.random() < 0.12:
         corr = [False, False, False]
     gc, edge, rmask = corr
-    ties = family == "sem" and rng.random() < 0.7
+    ties = hard and rng.random() < 0.7
     bins = _layout(rng, n_t, n_a, chroms, unique_sizes=(edge and not ties))
     n = len(bins)
     flat = rng.random() < 0.15
@@ -297,7 +299,7 @@ def gen_case(rng: random.Random, family, var_kind, big):
     # (no zero-depth antitarget bins under a non-dyadic factor: whether the placeholder -20, centred, falls above the
     #  -15 cut would then hinge on an irrational shift the specification only has rounded to the grid)
     pnull_a = 0.0 if var_kind == "scalef" else rng.choice([0.0, 0.0, 0.05, 0.3])
-    if family == "sem" and not ties:
+    if hard and not ties:
         pnull_t, pnull_a = rng.choice([(0.7, 0.0), (1.0, 0.0), (0.0, 1.0), (0.0, 0.7), (0.6, 0.6)])
         if var_kind == "scalef":
             pnull_a = 0.0
@@ -370,8 +372,7 @@ def random_inputs(ctx: Ctx, n, n_big):
     kinds = ["none", "scale2k", "scalef", "perm"]
     out = []
     for k in range(n):
-        family = "sem" if k % 5 == 4 else "fix"
-        out.append(gen_case(rng, family, kinds[k % 4], big=(k < n_big)))
+        out.append(gen_case(rng, k % 5 == 4, kinds[k % 4], big=(k < n_big)))
     return out
 
 
@@ -453,12 +454,9 @@ def run(ctx: Ctx):
     elif dev >= 2:
         scopes = [dict(NB=2, KShifts=[0], Pats=[2], Scens=["same", "permR"], ColSets=["full"])]
     elif thorough:
-        scopes = [dict(NB=5, KShifts=[0, 1, 2, 3, 4, 5], Pats=[1, 2, 3],
-                       Scens=["same", "subset", "noanti", "missing", "missingA", "dupT", "dupA", "dupRef", "permR",
-                              "perm"], ColSets=["full", "nogc"]),
-                  dict(NB=3, KShifts=[0, 1, 2, 3, 4, 5], Pats=[1, 2, 4],
-                       Scens=["same", "subset", "noanti", "missing", "missingA", "dupT", "dupA", "dupRef", "permR",
-                              "perm"], ColSets=["full", "nogc", "normask", "nodepth"])]
+        scens = ["same", "subset", "noanti", "missing", "missingA", "dupT", "dupA", "dupRef", "permR", "perm"]
+        scopes = [dict(NB=5, KShifts=[0, 1, 2, 3, 4, 5], Pats=[1, 2, 3, 4], Scens=scens, ColSets=["full"]),
+                  dict(NB=3, KShifts=[0, 3], Pats=[1, 2], Scens=scens, ColSets=["full", "nogc", "normask", "nodepth"])]
     else:
         scopes = [dict(NB=4, KShifts=[0, 2, 4], Pats=[1, 2],
                        Scens=["same", "subset", "noanti", "missing", "dupT", "dupRef", "permR", "perm"],
@@ -479,7 +477,7 @@ def run(ctx: Ctx):
     ctx.exhaustive = "; ".join(
         f"NB={sc['NB']} bins x all bad subsets x all correction subsets x KShifts={sc['KShifts']} x Pats={sc['Pats']} x "
         f"Scens={sc['Scens']} x ColSets={sc['ColSets']}" for sc in scopes) + " -- every dumped input replayed"
-    n_rand, n_big = (40, 4) if dev == 1 else (dev, dev // 10) if dev else ((4000, 400) if thorough else (240, 16))
+    n_rand, n_big = (40, 4) if dev == 1 else (dev, dev // 10) if dev else ((3000, 300) if thorough else (240, 16))
     rnd = ctx.execute(execute, random_inputs(ctx, n_rand, n_big), chunksize=2)
     records += rnd
     for rec in records:
